@@ -35,9 +35,10 @@ def expected_specific(kind, op):
     return None, 99
 
 
-def spec_check(kind, rows, lf, ops, obs, impl):
+def spec_check(kind, rows, lf, ops, obs, impl, init=None):
+    """init = (auto_notify, auto_save) at the start of `ops` when the history is a later segment of a longer one"""
     out = []
-    auto_notify, auto_save = True, True
+    auto_notify, auto_save = init or (True, True)
     prev = None
     for i, (op, o) in enumerate(zip(ops, obs)):
         c = op[0]
@@ -249,6 +250,224 @@ def run_swap(chk, n):
     chk.extra.setdefault("strata", {})["watcher_replaced_histories"] = 2 * n
 
 
+# ----------------------------------------------------------------------------- watcher attached / exchanged / detached at any
+# point of a history, in any order with the auto-notify switch (added after the fifth seeding wave)
+SETW = 90            # pseudo-op (90, k): e.set_watcher(<a fresh recording watcher of kind k>), k = 0: set_watcher(None)
+W_NAMES = {0: "None", 1: "Watcher(update() only)", 2: "WatcherEx", 3: "WatcherEx+WatcherUpdatable"}
+
+
+def attach_pretty(items):
+    return [["set_watcher", W_NAMES[o[1]]] if o[0] == SETW else mgmt.pretty_op(o) for o in items]
+
+
+def attach_segments(w0, items):
+    segs = [(w0, [])]
+    for o in items:
+        if o[0] == SETW:
+            segs.append((o[1], []))
+        else:
+            segs[-1][1].append(o)
+    return segs
+
+
+def attach_execute(kn, is_async, w0, rows, items):
+    """the history `items` (management ops, flag changes, queries and set_watcher pseudo-ops) on an enforcer that starts
+    with a watcher of kind w0 (0 = none attached).  SPEC: spec_check on every segment between two set_watcher calls, for the
+    kind of the watcher attached during that segment and with the auto-notify / auto-save state the history has reached
+    (set_watcher is not a flag change); a watcher that was replaced or detached is never notified again.
+    Returns (violation | None, flat observations)."""
+    kw = {}
+    if is_async:
+        from ..async_facade import AsyncFacade
+        kw = dict(enforcer_cls=AsyncFacade)
+    kind0 = mgmt.KINDS[kn].with_(adapter=True, watcher=w0)
+    impl = mgmt.Impl(kind0, rows, True, **kw)
+    retired, flat, bad = [], [], None
+    notify, save = True, True
+    pos = 0
+    for si, (wk, ops) in enumerate(attach_segments(w0, items)):
+        if si > 0:
+            if impl.watcher is not None:
+                retired.append(impl.watcher)
+            new = mgmt.WATCHERS[wk]() if wk else None
+            impl.e.set_watcher(new)
+            impl.watcher = new
+            flat.append(None)
+            pos += 1
+        kind = kind0.with_(watcher=wk)
+        rows_now = [(pt, r) for pt in (0, 1, 2) for r in impl.policy(pt)]
+        obs, stale = [], None
+        for k, op in enumerate(ops):
+            obs.append(impl.step(op))
+            if stale is None and any(r.calls for r in retired):
+                stale = (k, [list(r.calls)[:2] for r in retired if r.calls])
+        flat.extend(obs)
+        if bad is None and stale is not None:
+            bad = (pos + stale[0], "a replaced / detached watcher was still notified: %r" % (stale[1],))
+        if bad is None:
+            v = spec_check(kind, rows_now, True, ops, obs, impl, init=(notify, save))
+            if v:
+                bad = (pos + v[0][0], v[0][1])
+        for op in ops:
+            if op[0] == 37:
+                notify = bool(op[1])
+            elif op[0] == 35:
+                save = bool(op[1])
+        pos += len(ops)
+    return bad, flat
+
+
+def attach_model_kind(kn, w0, items):
+    """the Mgmt model has ONE watcher of a fixed kind from the start.  It covers a history with set_watcher calls when every
+    watcher attached is of the same kind w and, while none is attached, only flag changes and queries happen: then the
+    history without the set_watcher calls, run with a watcher of kind w from the start, must give the same observations."""
+    segs = attach_segments(w0, items)
+    ws = {wk for wk, _ in segs if wk}
+    if len(ws) != 1:
+        return None
+    for wk, ops in segs:
+        if wk == 0 and any(not (o[0] >= 50 or o[0] in (36, 37, 38)) for o in ops):
+            return None
+    return mgmt.KINDS[kn].with_(adapter=True, watcher=ws.pop())
+
+
+def gen_attach(rng, kn):
+    uniform = rng.random() < 0.5
+    wu = rng.choice([1, 2, 3])
+    pick = (lambda: rng.choice([wu, wu, 0])) if uniform else (lambda: rng.choice([1, 2, 3, 1, 2, 3, 0]))
+    w0 = 0 if rng.random() < 0.5 else pick()
+    n_seg = rng.choice([2, 2, 3, 4])
+    kinds = [w0] + [pick() for _ in range(n_seg - 1)]
+    if not any(kinds):
+        kinds[-1] = wu
+    g = mgmt.Gen(rng, mgmt.KINDS[kn].with_(adapter=True, watcher=3), W)
+    rows = g.rows(rng.randint(0, 6))
+    items = []
+    for si, wk in enumerate(kinds):
+        if si > 0:
+            items.append((SETW, wk))
+        if wk == 0 and (uniform or rng.random() < 0.5):
+            ops = [g.query() for _ in range(rng.randint(0, 2))]
+        else:
+            ops = g.history(rng.randint(1, 6), final_probe=False)
+        x = rng.random()
+        if x < 0.45:
+            ops.append((37, False))                 # the switch is flipped right before the next set_watcher
+        elif x < 0.6:
+            ops.append((37, True))
+        if rng.random() < 0.3:
+            ops.insert(rng.randrange(len(ops) + 1), (37, rng.random() < 0.5))
+        items.extend(ops)
+    return w0, rows, items
+
+
+def attach_case(kn, is_async, w0, rows, items):
+    return dict(stratum="watcher-attach-order", kind=kn, enforcer="AsyncEnforcer" if is_async else "Enforcer",
+                initial_watcher=w0, initial_rows=[[pt, r] for pt, r in rows], items=[list(o) for o in items],
+                readable=dict(initial_watcher=W_NAMES[w0], initial_rows=[[pt, mgmt.S(r)] for pt, r in rows],
+                              history=attach_pretty(items)))
+
+
+def attach_model_diff(chk, kn, w0, rows, items, flat):
+    mk = attach_model_kind(kn, w0, items)
+    if mk is None or chk.oracle is None:
+        return None
+    ops = [o for o in items if o[0] != SETW]
+    mo = mgmt.run_model(chk.oracle, mk, rows, True, [ops])[0]
+    return first_attach_diff(items, flat, mo)
+
+
+def first_attach_diff(items, flat, mo):
+    obs = [o for o in flat if o is not None]
+    d = mgmt.first_diff(obs, mo)
+    if not d:
+        return None
+    # position in `items` of the d[0]-th real op
+    k = -1
+    for i, o in enumerate(items):
+        if o[0] != SETW:
+            k += 1
+            if k == d[0]:
+                return (i, d[1], obs[d[0]] if d[0] < len(obs) else None, mo[d[0]] if mo and d[0] < len(mo) else mo)
+    return (len(items), d[1], None, None)
+
+
+def replay_attach(chk, c):
+    import sys
+    rows = [(pt, r) for pt, r in c["initial_rows"]]
+    items = [tuple(o) for o in c["items"]]
+    is_async = c.get("enforcer") == "AsyncEnforcer"
+    bad, flat = attach_execute(c["kind"], is_async, c["initial_watcher"], rows, items)
+    d = attach_model_diff(chk, c["kind"], c["initial_watcher"], rows, items, flat)
+    print("replay (watcher attached / exchanged / detached inside the history):", c["readable"])
+    print("  spec violation on the implementation:", bad)
+    print("  implementation vs model:", d[:2] if d else None)
+    if bad:
+        print(f"VIOLATION property={chk.prop} replay={chk.replay_file}")
+        sys.exit(1)
+    if d:
+        print(f"VIOLATION property={chk.prop} replay={chk.replay_file} no-failing-input-found")
+        sys.exit(1)
+    print("replay passes: the implementation satisfies the spec on this history" + (" and agrees with the model" if attach_model_kind(c["kind"], c["initial_watcher"], items) else ""))
+    sys.exit(0)
+
+
+def run_attach(chk, n):
+    """set_watcher at ANY point of the history and in any order with enable_auto_notify_watcher: no watcher at first and one
+    attached later (possibly after auto-notify was switched off), the watcher exchanged or detached (set_watcher(None)) and
+    re-attached while auto-notify is off or on; sync and async enforcer.  Attaching a watcher is not a flag change: the
+    notifications of every later call are those the property states for the watcher attached at that moment and the
+    auto-notify state the history's enable_auto_notify_watcher calls have produced."""
+    rng = chk.rng
+    st = chk.extra.setdefault("strata", {})
+    reported = 0
+    for is_async in (False, True):
+        for kn in ("acl", "rbac"):
+            pending = []
+            for _ in range(n):
+                w0, rows, items = gen_attach(rng, kn)
+                bad, flat = attach_execute(kn, is_async, w0, rows, items)
+                chk.count(("attach", is_async, kn, w0, repr([o for o in items if o[0] < 50 or o[0] == SETW])))
+                if len(pending) % max(1, n // 2) == 0:
+                    chk.sample(dict(stratum="watcher-attach-order", kind=kn, enforcer="AsyncEnforcer" if is_async else "Enforcer",
+                                    initial_watcher=W_NAMES[w0], history=attach_pretty(items)[:14]), cap=10)
+                if bad:
+                    if reported < 3:
+                        msg = bad[1]
+
+                        def fails(cand, _msg=msg, _w0=w0, _rows=rows):
+                            b, _ = attach_execute(kn, is_async, _w0, _rows, cand)
+                            return bool(b) and b[1] == _msg
+                        items = mgmt.shrink(items[:bad[0] + 1], fails)
+                        b2, _ = attach_execute(kn, is_async, w0, rows, items)
+                        bad = b2 or bad
+                    reported += 1
+                    chk.spec_fail(attach_case(kn, is_async, w0, rows, items), dict(step=bad[0]), "see 'what'", bad[1])
+                    continue
+                mk = attach_model_kind(kn, w0, items)
+                if mk is not None:
+                    pending.append((mk, w0, rows, items, flat))
+                else:
+                    pending.append(None)
+            todo = [p for p in pending if p is not None]
+            if todo and chk.oracle is not None:
+                reqs = [(1, [mk.wire(), [[pt, r] for pt, r in rows], True, [list(o) for o in items if o[0] != SETW]])
+                        for mk, w0, rows, items, flat in todo]
+                reps = chk.oracle.query(reqs)
+                for (mk, w0, rows, items, flat), rep in zip(todo, reps):
+                    ops = [o for o in items if o[0] != SETW]
+                    mo = None
+                    if isinstance(rep, list) and rep != [998] and not (rep and rep[0] == "ORACLE-ERROR"):
+                        mo = [mgmt.canon_model_obs(op, o) for op, o in zip(ops, rep)]
+                    d = first_attach_diff(items, flat, mo)
+                    if d:
+                        chk.disagree(attach_case(kn, is_async, w0, rows, items[:d[0] + 1]), d[2], d[3],
+                                     where=f"watcher-attach-order ({'async' if is_async else 'sync'} {kn}): item {d[0]} component {d[1]}")
+                st["watcher_attach_order_model_compared"] = st.get("watcher_attach_order_model_compared", 0) + len(todo)
+            chk.traces += n
+            st["watcher_attach_order_histories"] = st.get("watcher_attach_order_histories", 0) + n
+
+
 # ----------------------------------------------------------------------------- probed strata (added after the third seeding wave)
 REFUSALS = [(), ("add_policy",), ("remove_policy",), ("add_policies", "remove_policies"), ("update_policy", "update_policies"),
             ("remove_filtered_policy",),
@@ -343,7 +562,9 @@ def main():
                 "; probed strata on the sync and the async enforcer: the recording watcher looks at the enforcer's stored rules "
                 "and the adapter's rows at callback time, the async watcher's update_for_* callbacks are coroutine functions "
                 "in half of the async histories, and the adapter refuses (returns False for) one of 6 groups of calls in "
-                "6 of 7 configurations")
+                "6 of 7 configurations; attach-order histories: set_watcher (a fresh watcher of any kind, or None) as an "
+                "event anywhere in the history, in any order with enable_auto_notify_watcher (off before the first watcher is "
+                "attached, exchanged / detached / re-attached while off), sync and async")
     chk.assumptions = ["save_policy notifies whenever a watcher is set (the property's last clause; the code does not consult "
                        "auto-notify there, like the Go reference)",
                        "delete_user / delete_role are two underlying management calls: one notification per successful one",
@@ -359,7 +580,7 @@ def main():
         c = (json.load(open(chk.replay_file)).get("case") or {})
         if c.get("stratum") == "partial-watcher-minimal-adapter":
             a = c["replay_args"]
-            bad = c20_partial.run_one(a[0], a[1], a[2], tuple(a[3]), a[4])
+            bad = c20_partial.run_one(a[0], a[1], a[2], tuple(a[3]), a[4], *(a[5:6]))
             print("replay (partial watcher / minimal adapter):", a, "->", bad)
             if bad:
                 print(f"VIOLATION property={chk.prop} replay={chk.replay_file}")
@@ -368,6 +589,8 @@ def main():
             raise SystemExit(0)
         if c.get("stratum") == "watcher-replaced":
             return replay_swap(chk, c)
+        if c.get("stratum") == "watcher-attach-order":
+            return replay_attach(chk, c)
         if c.get("probed"):
             from ..async_facade import probed_enforcer
             t = (c.get("enforcer") == "AsyncEnforcer", c.get("watcher_callbacks") == "coroutine", tuple(c.get("adapter_refuses") or ()))
@@ -383,13 +606,17 @@ def main():
         run_swap(chk, 1500)
         run_async(chk, 300)
         run_probed(chk, 100)
+        run_attach(chk, 1500)
         c20_partial.run(chk, 12)
     else:
         run(chk, 60)
         run_swap(chk, 150)
         run_async(chk, 30)
         run_probed(chk, 24)
+        run_attach(chk, 150)
         c20_partial.run(chk, 2)
+        if (chk.broken() or chk.anchor_changed) and not chk.spec_failures:
+            run_attach(chk, 600)
         if (chk.broken() or chk.anchor_changed) and not chk.spec_failures:
             run(chk, 300)
             if not chk.spec_failures:
